@@ -22,7 +22,7 @@ table = ("<!-- seed-table-begin -->\n| seed | property | change (author's words,
 p = os.path.join(V, "DESIGN.md")
 s = open(p).read()
 if "<!-- seed-table-begin -->" in s:
-    s = re.sub(r"<!-- seed-table-begin -->.*?<!-- seed-table-end -->\n", table, s, flags=re.S)
+    s = re.sub(r"<!-- seed-table-begin -->.*?<!-- seed-table-end -->\n", lambda m: table, s, flags=re.S)
 else:
     s = s.replace("## 7. Feasibility probes", table + "\n## 7. Feasibility probes", 1)
 open(p, "w").write(s)
